@@ -168,8 +168,8 @@ func (s *scriptedFilter) OnReceive(ctx context.Context, headers api.HeaderMap, b
 		}
 		return api.StreamFilterStop
 	case "rematch":
-		if s.f.phase == int(api.AfterRoute) {
-			return api.StreamFilterReMatchRoute
+		if s.f.phase == int(api.AfterRoute) || s.f.phase == int(api.AfterChooseHost) {
+			return api.StreamFilterReMatchRoute // (in the last phase the proxy ignores it: "Retry only at the AfterRoute phase")
 		}
 	case "rechoose":
 		if s.f.phase == int(api.AfterChooseHost) {
@@ -216,6 +216,9 @@ func expectedRecvCalls(filters []FilterSpec, verdict map[string]string) (calls [
 					redone[f.Name] = true
 					start = i
 					goto again
+				}
+				if phase == 2 {
+					i = len(filters) // not honoured in this phase: the pass ends at the requesting filter, the request goes on
 				}
 			case "rechoose":
 				if phase == 2 && !redone[f.Name] {
